@@ -17,6 +17,7 @@ package gomatrixserverlib
 
 import (
 	"encoding/json"
+	"fmt"
 	"strings"
 	"time"
 
@@ -62,6 +63,14 @@ type ServerKeyFields struct {
 
 // UnmarshalJSON implements json.Unmarshaler
 func (keys *ServerKeys) UnmarshalJSON(data []byte) error {
+	// The signatures are checked over the canonical form of Raw, which keeps only the last
+	// copy of a top-level key that is written more than once, whereas encoding/json decodes
+	// every copy into the same field and merges those that are objects. The keys of an
+	// earlier "verify_keys" or "old_verify_keys" would then be taken from a response whose
+	// signatures do not cover them.
+	if dup := duplicateTopLevelKey(data); dup != nil {
+		return fmt.Errorf("gomatrixserverlib: server keys have more than one top-level %q key", *dup)
+	}
 	keys.Raw = data
 	return json.Unmarshal(data, &keys.ServerKeyFields)
 }
